@@ -60,9 +60,6 @@ Definition rt_verdict (T : tb) ms text parsed printed : verdict :=
   (agree, holds, known).
 
 (* ---- live exceptions ------------------------------------------------------------------ *)
-Definition cp_of_live (l : live_frame) : callpoint :=
-  mkCP (lv_file l) (lv_lineno l) (lv_name l) (lv_raw l).
-
 Definition cp_obs_eqb (a b : cp_obs) : bool :=
   str_eqb (co_path a) (co_path b) && (co_lineno a =? co_lineno b) &&
   str_eqb (co_func a) (co_func b) && str_eqb (co_line a) (co_line b).
